@@ -70,7 +70,8 @@ def check(prop, tier, repo, write_evidence=True):
             by_rule.setdefault(i.rule, []).append(i)
         for rule, floor in spec.get('floors', {}).items():
             n = len([i for i in by_rule.get(rule, []) if i.verdict != 'info'])
-            if n < floor:
+            import math
+            if n < max(1, math.ceil(floor * ctx.floor_scale)):
                 fail_closed.append('rule %s produced %d instances for %s, floor is %d (an extractor or recogniser lost its anchors)' % (rule, n, prop, floor))
         if prog.info.get('n_fns', 0) < catalog.MIN_FUNCTIONS:
             fail_closed.append('only %d function bodies seen, expected at least %d' % (prog.info.get('n_fns', 0), catalog.MIN_FUNCTIONS))
